@@ -1,14 +1,17 @@
 PROP = {
     "id": "C25",
     "theorem_modules": ["Verif.Properties.C25"],
-    "min_theorems": 7,
+    "min_theorems": 11,
     "required_theorems": [
         "Verif.Properties.C25.ids_fresh",
-        "Verif.Properties.C25.index_consistent_partial",
+        "Verif.Properties.C25.index_consistent",
+        "Verif.Properties.C25.index_consistent_step",
+        "Verif.Properties.C25.retarget_consistent",
+        "Verif.Properties.C25.ids_fresh_hist",
         "Verif.Properties.C25.getControllers_exact",
         "Verif.Properties.C25.get_published_only",
         "Verif.Properties.C25.inbox_claim",
-        "Verif.Properties.C25.borrow_if_partial",
+        "Verif.Properties.C25.borrow_iff",
     ],
     "streams": [
         {"name": "caps", "driver": "drv_caps",
@@ -20,19 +23,20 @@ PROP = {
                  "set of live controllers) + refinement testing of the real runtime against the machine on generated histories",
     "level_text": "Lean theorems about Verif.Model.Caps: issue returns counter+1, larger than every live id, and advances the "
                   "counter; the refinement invariant (path index = live controllers targeting the path, no repetition, ids below "
-                  "the counter) holds initially and is preserved by issue and delete, which then never reach an `unreachable` "
-                  "branch; under it getControllers/forEachController report exactly the live controllers of the path; "
+                  "the counter) holds initially and is preserved by every operation (issue, retarget = unrecord + record, delete, "
+                  "setTag, queries, publish/unpublish, inbox, save/load), hence in every account after every history of "
+                  "transactions with aborts (index_consistent, induction over operation lists), and no history reaches an "
+                  "`unreachable` branch of the Go code; under it getControllers/forEachController report exactly the live controllers of the path; "
                   "capabilities.get returns only a currently published capability with a live controller and related types; "
-                  "borrow succeeds when published, live, types related and the stored value is a subtype; an inbox claim returns "
+                  "borrow yields a reference exactly when published, live, types related and the stored value is a subtype "
+                  "(borrow_iff, both directions) and never changes the state; an inbox claim returns "
                   "only what that provider published for that claimer under that name and at most once.  Tied to /repo by the "
                   "`caps` stream: histories of issue / retarget / delete / setTag / getController(s) / forEachController / "
                   "publish / unpublish / exists / get / borrow / inbox publish, unpublish, claim / save / load over 3 accounts, "
                   "4 storage paths, 2 public paths, 4 borrow types, as Cadence transactions on the real runtime (persistent "
                   "ledger, both engines); every log line and outcome class compared with the machine; the table stored value x "
                   "controller type x wanted type and the inbox type table are covered exhaustively.",
-    "level_note": "proof (refinement between two model layers) + CC.  Partial: invariant preservation is proved for issue and "
-                  "delete only (retarget and the lifting over all operations / histories are missing); borrow is proved in the "
-                  "`if` direction; borrow types carry no authorizations (CanBorrow's PermitsAccess part is not exercised); "
+    "level_note": "proof (refinement between two model layers) + CC.  Borrow types carry no authorizations (CanBorrow's PermitsAccess part is not exercised); "
                   "account capability controllers are not modelled.",
     "assumptions": ["type universe &C.S, &C.S2 (S2: I), &{C.I}, &AnyStruct without authorizations",
                     "host account-id counter is rolled back with a failed transaction (internal/acct)"],
